@@ -1234,6 +1234,7 @@ class DetLoop(asyncio.BaseEventLoop):
         self.steps = 0
         self.max_steps = max_steps
         self.readers = {}
+        self.step_hooks = []      # fn(loop) called before every step
 
     def time(self):
         return self._vtime
@@ -1276,6 +1277,8 @@ class DetLoop(asyncio.BaseEventLoop):
         h = live.pop(k)
         self._ready.extend(live)
         self.steps += 1
+        for hook in list(self.step_hooks):
+            hook(self)
         if self.steps > self.max_steps:
             raise Unwind("event loop step bound exceeded")
         h._run()
